@@ -1487,17 +1487,7 @@ namespace avel {
         _mm_mask_storeu_epi32(ptr, mask, decay(x));
 
         #elif defined(AVEL_SSE2)
-        n = min(n, vec4x32i::width);
-        auto undef = _mm_undefined_si128();
-        auto full = _mm_cmpeq_epi8(undef, undef);
-
-        auto w = vec4x32i::width;
-        auto h = vec4x32i::width / 2;
-
-        auto lo = _mm_srl_epi64(full, _mm_cvtsi64_si128(32 * (h - min(h, n))));
-        auto hi = _mm_srl_epi64(full, _mm_cvtsi64_si128(32 * (w - min(w, n))));
-        auto mask = _mm_unpacklo_epi64(lo, hi);
-        _mm_maskmoveu_si128(decay(x), mask, reinterpret_cast<char *>(ptr));
+        store_first_bytes(ptr, decay(x), min(n, vec4x32i::width) * sizeof(std::int32_t));
 
         #endif
 
